@@ -86,6 +86,9 @@ pub struct BbCase {
 	/// line ends of the chains the CA serves: "" (LF) | crlf | no-final
 	#[serde(default)]
 	pub pem_eol: String,
+	/// the CA gives out the same leaf again for the same key (visible with kp_reuse): only the intermediates change
+	#[serde(default)]
+	pub repeat_leaf: bool,
 }
 
 fn bb_strategy() -> impl Strategy<Value = BbCase> {
@@ -103,9 +106,10 @@ fn bb_strategy() -> impl Strategy<Value = BbCase> {
 		proptest::collection::vec(1usize..=4, 1..=2),
 		any::<bool>(),
 		prop_oneof![3 => Just("none"), 1 => Just("garbage"), 1 => Just("empty"), 1 => Just("usable"), 1 => Just("othertype")],
-		(prop_oneof![3 => Just(0usize), 1 => 200usize..12000], prop_oneof![3 => Just(""), 1 => Just("crlf"), 1 => Just("no-final")]),
+		(prop_oneof![3 => Just(0usize), 1 => 200usize..12000], prop_oneof![3 => Just(""), 1 => Just("crlf"), 1 => Just("no-final")], any::<bool>()),
 	)
-		.prop_map(|(kt, chains, nif, c1, c2, chains2, kp_reuse, prekey, (placeholder, pem_eol))| BbCase { key_type: kt.to_string(), chains, name_in_format: nif, contacts1: c1, contacts2: c2, chains2, kp_reuse, prekey: prekey.to_string(), placeholder, pem_eol: pem_eol.to_string() })
+		.prop_map(|(kt, chains, nif, c1, c2, chains2, kp_reuse, prekey, (placeholder, pem_eol, repeat_leaf))| BbCase {
+			repeat_leaf, key_type: kt.to_string(), chains, name_in_format: nif, contacts1: c1, contacts2: c2, chains2, kp_reuse, prekey: prekey.to_string(), placeholder, pem_eol: pem_eol.to_string() })
 }
 
 fn check_post_files(rec: &crate::daemon::HookRecord, order: &crate::mockca::server::OrderRec, what: &str) -> Result<(), (String, String)> {
@@ -184,7 +188,7 @@ fn exec_bb_in(case: &BbCase, acmed: &std::path::Path, dir: &std::path::Path) -> 
 	let mut seq = case.chains.clone();
 	seq.extend(case.chains2.iter());
 	// certificates valid for one day: inside the default renew_delay, so the daemon renews at once
-	let plan = CaPlan { chain_len_seq: seq, not_after_s: 86400, polls_authz: 0, polls_ready: 0, polls_valid: 0, pem_eol: case.pem_eol.clone(), ..CaPlan::default() };
+	let plan = CaPlan { chain_len_seq: seq, not_after_s: 86400, polls_authz: 0, polls_ready: 0, polls_valid: 0, pem_eol: case.pem_eol.clone(), repeat_leaf: case.repeat_leaf, ..CaPlan::default() };
 	let ca = match MockCa::start(plan, vec![(bb::ident_key(&ids), "c1".to_string())]) {
 		Ok(c) => c,
 		Err(e) => return Outcome::Infra(e),
@@ -280,7 +284,7 @@ fn exec_bb_in(case: &BbCase, acmed: &std::path::Path, dir: &std::path::Path) -> 
 			Err((sig, detail)) => return Outcome::fail(sig, detail),
 		}
 	}
-	let mut classes = vec![format!("key={}", case.key_type), format!("issuances={}", seen_posts), format!("kp_reuse={}x{}", case.kp_reuse, if case.prekey.is_empty() { "none" } else { &case.prekey }), format!("chain-line-ends={}", if case.pem_eol.is_empty() { "lf" } else { &case.pem_eol })];
+	let mut classes = vec![format!("key={}", case.key_type), format!("issuances={}", seen_posts), format!("kp_reuse={}x{}", case.kp_reuse, if case.prekey.is_empty() { "none" } else { &case.prekey }), format!("chain-line-ends={}", if case.pem_eol.is_empty() { "lf" } else { &case.pem_eol }), format!("ca-repeats-leaf={}", case.repeat_leaf && case.kp_reuse)];
 	if shrinks > 0 {
 		classes.push("cert-shorter-after-longer".into());
 	}
@@ -442,7 +446,7 @@ fn exec_pr(case: &PrCase) -> Outcome {
 }
 
 pub fn run(ctx: &Ctx, rep: &mut Report) {
-	rep.rule = "bb: histories of 2..6 issuances of one certificate over 1..2 daemon runs (certificates issued inside renew_delay so the daemon renews at once; chain lengths drawn so that a shorter chain follows a longer one in ~70 %; the second run has other contacts, so the account file is rewritten; the CA serves its chains with LF, CRLF or without a final line end); oracle after every post-operation(success): certificate file bytes == body the mock CA served for that order, key file == exactly the PKCS#8 PEM of the key in that order's CSR; account file decoded by a bincode mirror must be consumed entirely and hold the configured contacts. pr: histories of 2..6 writes (arbitrary bytes 0..8 KiB, keys of 6 types) to one certificate/account/key path through the daemon's storage functions, optional pre-existing content, and in one history out of five a limit on the file size (RLIMIT_FSIZE of 1..2500 bytes: a write that does not fit fails like on a full disk); file bytes after each write reported successful == bytes written, and a write that does not fit is reported as failed. Non-trivial = the history contains a write strictly shorter than the previous content of the same path, or a write refused for its size.".into();
+	rep.rule = "bb: histories of 2..6 issuances of one certificate over 1..2 daemon runs (certificates issued inside renew_delay so the daemon renews at once; chain lengths drawn so that a shorter chain follows a longer one in ~70 %; the second run has other contacts, so the account file is rewritten; the CA serves its chains with LF, CRLF or without a final line end, and in half of the cases gives out the same leaf again when the key pair is reused, with the new order's intermediates); oracle after every post-operation(success): certificate file bytes == body the mock CA served for that order, key file == exactly the PKCS#8 PEM of the key in that order's CSR; account file decoded by a bincode mirror must be consumed entirely and hold the configured contacts. pr: histories of 2..6 writes (arbitrary bytes 0..8 KiB, keys of 6 types) to one certificate/account/key path through the daemon's storage functions, optional pre-existing content, and in one history out of five a limit on the file size (RLIMIT_FSIZE of 1..2500 bytes: a write that does not fit fails like on a full disk); file bytes after each write reported successful == bytes written, and a write that does not fit is reported as failed. Non-trivial = the history contains a write strictly shorter than the previous content of the same path, or a write refused for its size.".into();
 	rep.assume("the account mirror follows the stored record layout (bincode, fixed-width integers); a layout change is reported as infrastructure error, not as violation");
 	run_replays::<BbCase>(ctx, rep, "bb", &exec_bb);
 	run_replays::<PrCase>(ctx, rep, "pr", &exec_pr);
